@@ -7,6 +7,7 @@ import Bcder.Model.Parse
 import Bcder.Spec.X690
 import Bcder.Spec.Values
 import Bcder.Spec.Tlv
+import Bcder.Spec.Encode
 open Bcder
 
 def clsMask (c : Nat) : UInt8 := UInt8.ofNat (c * 64)
@@ -95,6 +96,27 @@ def handleModel (toks : List String) : String :=
     match parseIntTy ty, v.toInt? with
     | some ty, some v => s!"ok {toHex (encInt ty v)} len={encIntLen ty v}"
     | _, _ => "bad-op"
+  | "enc" :: mode :: tree =>
+    match Mode.ofString mode, parseEnc (tree.length + 2) tree with
+    | some m, some (e, []) => resStr do
+        let l ← e.encodedLen m
+        let w ← e.write m
+        pure s!"ok len={l} {toHex w}"
+    | _, _ => "bad-op"
+  | "rt" :: mode :: rest =>
+    let tree := rest.takeWhile (· != ";;")
+    let script := (rest.dropWhile (· != ";;")).drop 1
+    match Mode.ofString mode, parseEnc (tree.length + 2) tree, parseScript script with
+    | some m, some (e, []), some sc => resStr do
+        let l ← e.encodedLen m
+        let w ← e.write m
+        let show1 (mm : Mode) : String :=
+          match runScript mm w sc with
+          | .ok (tr, rest) => s!"ok {" ".intercalate tr.toList} | rest={rest}"
+          | .error err => err.toStr
+        let base := s!"ok len={l} enc={toHex w} dec=[{show1 m}]"
+        pure (if m == .der then base ++ s!" ber=[{show1 .ber}]" else base)
+    | _, _, _ => "bad-op"
   | _ => "bad-op:model"
 
 
@@ -125,15 +147,6 @@ def convSpec (c : Bytes) : String :=
   let v := Spec.tcValue c
   " ".intercalate (allTys.map fun (n, ty) =>
     if Spec.inRange ty.signed ty.width v then s!"{n}={v}" else s!"{n}=ovf")
-
-/-- decode one OCTET STRING from a complete encoding (`OctetString::take_from` at top level) -/
-def osOf (m : Mode) (enc : Bytes) : Res OS :=
-  let fuel := enc.length + 4
-  match runG (decodeTop m (fun c => do
-      let (os, c') ← takeValueIf c Tag.OCTET_STRING (OS.fromContent fuel)
-      pure (os, c'))) { data := enc, limit := none } with
-  | .ok (os, _) => .ok os
-  | .error e => .error e
 
 def osViews (os : OS) : Res String := do
   let segs ← os.segments
@@ -507,6 +520,13 @@ def handleSpec (toks : List String) : String :=
   | ["prim", mode, hex, "null"] =>
     match Mode.ofString mode, ofHex hex with
     | some _, some c => if c.isEmpty then "ok n" else "err content"
+    | _, _ => "bad-op"
+  | "enc" :: mode :: tree =>
+    match Mode.ofString mode, parseEnc (tree.length + 2) tree with
+    | some m, some (e, []) =>
+      match Spec.encode m e with
+      | some w => s!"ok len={w.length} {toHex w}"
+      | none => "nospec"
     | _, _ => "bad-op"
   | _ =>
     let r := handleSpecLeaf toks
